@@ -472,7 +472,8 @@ Section PHist.
     if negb direct then true else
     forallb (fun pn => let '(P, nc) := pn in
                if e_vals e_ && (fork <=? ep_of cur) && negb (match exp_sync e_ P with [] => true | _ => false end)
-               then forallb (fun s => ((s =? cur1f P) && nc) || texists A (JSync s)) (slot_range (sync_lo fork cur P) (sync_hi fork P))
+               then forallb (fun s => (s <? cur1f P) (* passed while the request was outstanding: no job is claimed *)
+                                      || ((s =? cur1f P) && nc) || texists A (JSync s)) (slot_range (sync_lo fork cur P) (sync_hi fork P))
                else true)
             (match o with
              | Start => [(ep_of cur / c_period c, true)]     (* a start-up covers the rest of the current period at once *)
